@@ -516,6 +516,7 @@ func (c *Cache[K, V]) get(key K) getResult[V] {
 		if item.expireTime > 0 && now > item.expireTime {
 			if !shardLockedWrite {
 				shard.mu.RUnlock()
+				verifYield(261)
 				shard.mu.Lock()
 				shardLockedWrite = true
 
